@@ -988,7 +988,7 @@ class Recorder:
 
             def qi(obj, produce, on_abort=None, eager=False, capacity=100):
                 rec = {"cb": 0, "cb_async": False, "has_cb": on_abort is not None, "eager": bool(eager),
-                       "events": [], "obj": obj}
+                       "events": [], "obj": obj, "cap": int(capacity)}
 
                 async def produce2(q):
                     try:
@@ -1090,7 +1090,7 @@ class Recorder:
         for rec in self.queues:
             o = rec["obj"]
             t = getattr(o, "_producer_task", None)
-            queues.append({"eager": rec["eager"], "has_cb": rec["has_cb"], "cb_async": rec["cb_async"],
+            queues.append({"eager": rec["eager"], "has_cb": rec["has_cb"], "cb_async": rec["cb_async"], "cap": rec["cap"],
                            "events": list(rec["events"]), "cb": rec["cb"],
                            "aborted": bool(getattr(o, "_aborted", False)), "finished": bool(getattr(o, "_finished", False)),
                            "prod": 0 if t is None else (2 if t.done() else 1),
@@ -1125,16 +1125,17 @@ def queue_case(tr):
     evs = list(tr["events"])
     if tr["eager"] and evs and evs[0] == 1:
         evs = evs[1:]        # the eager start is the initial state of the machine
-    return [6, int(tr["eager"]), int(tr["has_cb"]), int(tr["cb_async"])] + evs, len(evs)
+    return [6, int(tr["eager"]), int(tr["has_cb"]), int(tr["cb_async"]), int(tr.get("cap", 100))] + evs, len(evs)
 
 
 def check_queue_trace(tr, out, nev):
-    if out == [999999] or len(out) < nev or (len(out) - nev) % 6:
+    FW = 9
+    if out == [999999] or len(out) < nev or (len(out) - nev) % FW:
         return "model rejected the event list"
     for i in range(nev):
         if out[i] == 0:
             return f"event {i} (code {tr['events'][-nev:][i]}) of the recorded trace is impossible in the machine"
-    finals = [out[nev + 6 * j: nev + 6 * j + 6] for j in range((len(out) - nev) // 6)]
+    finals = [out[nev + FW * j: nev + FW * j + FW] for j in range((len(out) - nev) // FW)]
     want = [int(tr["aborted"]), int(tr["finished"]), tr["cb"]]
     ok = [f for f in finals if [f[1], f[2], f[5]] == want]
     if not ok:
@@ -1234,7 +1235,7 @@ async def drive_computation(Computation, has_cb, cb_async, events):
     return obs, st["runs"], st["cb"]
 
 
-async def drive_queue(StreamItemQueue, WorkResult, eager, has_cb, cb_async, script, applicable):
+async def drive_queue(StreamItemQueue, WorkResult, eager, has_cb, cb_async, cap, script, applicable):
     """Scripted events on a real StreamItemQueue (loop settled after every non-abort event)."""
     loop = asyncio.get_running_loop()
     cmds = asyncio.Queue()
@@ -1242,23 +1243,23 @@ async def drive_queue(StreamItemQueue, WorkResult, eager, has_cb, cb_async, scri
     st = {"cb": 0}
 
     async def produce(q):
-        while True:
-            try:
+        try:
+            while True:
                 c = await cmds.get()
-            except asyncio.CancelledError:
-                if st.get("convert"):
-                    raise RuntimeError("cancellation turned into a failure") from None
-                raise
-            if c == 2:
-                f = loop.create_future()
-                pend.append(f)
-                await q.push(f)
-            elif c == 3:
-                await q.push(WorkResult(1))
-            elif c == 5:
-                return
-            elif c == 6:
-                raise RuntimeError("source failed")
+                if c == 2:
+                    f = loop.create_future()
+                    pend.append(f)
+                    await q.push(f)
+                elif c == 3:
+                    await q.push(WorkResult(1))
+                elif c == 5:
+                    return
+                elif c == 6:
+                    raise RuntimeError("source failed")
+        except asyncio.CancelledError:
+            if st.get("convert"):
+                raise RuntimeError("cancellation turned into a failure") from None
+            raise
 
     async def acb():
         await asyncio.sleep(0)
@@ -1274,7 +1275,7 @@ async def drive_queue(StreamItemQueue, WorkResult, eager, has_cb, cb_async, scri
         except BaseException:  # noqa: BLE001
             pass
 
-    q = StreamItemQueue(produce, on_abort if has_cb else None, eager=eager)
+    q = StreamItemQueue(produce, on_abort if has_cb else None, eager=eager, capacity=cap)
     consumer = None
     obs = []
 
@@ -1701,43 +1702,46 @@ def direct_drives(ck, m, thorough):
         ck.degraded.append(f"StreamItemQueue direct drive skipped: {e!r}")
     if StreamItemQueue is not None:
         n = 5 if thorough else 4
-        cfgs = [(eg, hc, ca) for eg in (0, 1) for (hc, ca) in ((0, 0), (1, 0), (1, 1))]
+        cfgs = [(eg, hc, ca, cap) for eg in (0, 1) for (hc, ca) in ((0, 0), (1, 0), (1, 1)) for cap in (1, 100)]
         cases, meta = [], []
-        for eg, hc, ca in cfgs:
+        for eg, hc, ca, cap in cfgs:
             for script in sequences(QUEUE_SCRIPT_EVENTS, n):
+                if 1 in script and 2 in script:
+                    continue     # a draining consumer next to pending item futures is outside the compared fragment
                 es = []
                 for e in script:
                     es.append(e)
                     if e != 7:
                         es.append(8)
-                cases.append([2, eg, hc, ca] + es)
-                meta.append((eg, hc, ca, script, es))
+                cases.append([2, eg, hc, ca, cap] + es)
+                meta.append((eg, hc, ca, cap, script, es))
         outs = m.run_batch(cases)
+        W = 10
         plans = []
-        for (eg, hc, ca, script, es), mo in zip(meta, outs):
+        for (eg, hc, ca, cap, script, es), mo in zip(meta, outs):
             app, i = [], 0
             for e in es:
                 if e != 8:
-                    app.append(mo[7 * i] == 1)
+                    app.append(mo[W * i] == 1)
                 i += 1
             plans.append(app)
         with _Quiet() as loop:
             async def all_q():
                 res = []
-                for (eg, hc, ca, script, es), app in zip(meta, plans):
+                for (eg, hc, ca, cap, script, es), app in zip(meta, plans):
                     try:
-                        res.append(await drive_queue(StreamItemQueue, WorkResult, bool(eg), bool(hc), bool(ca),
+                        res.append(await drive_queue(StreamItemQueue, WorkResult, bool(eg), bool(hc), bool(ca), cap,
                                                      script, app))
                     except Exception as e:  # noqa: BLE001
                         res.append(e)
                 return res
             results = loop.run_until_complete(all_q())
-        for (eg, hc, ca, script, es), mo, app, r in zip(meta, outs, plans, results):
-            ck.note_case(("queue", eg, hc, ca, script), nontrivial=(7 in script or 6 in script))
-            key = f"stream-queue-direct:{eg}{hc}{ca}:{list(script)}"
+        for (eg, hc, ca, cap, script, es), mo, app, r in zip(meta, outs, plans, results):
+            ck.note_case(("queue", eg, hc, ca, cap, script), nontrivial=(7 in script or 6 in script))
+            key = f"stream-queue-direct:{eg}{hc}{ca}:{cap}:{list(script)}"
             repd = {"relation": "StreamItemQueue = machine (abort return kind, _aborted, _finished, producer task, "
                                 "pending futures, on_abort calls)", "script": list(script),
-                    "config": {"eager": eg, "on_abort": hc, "async_on_abort": ca}, "model": mo}
+                    "config": {"eager": eg, "on_abort": hc, "async_on_abort": ca, "capacity": cap}, "model": mo}
             if isinstance(r, Exception):
                 ck.violation(key, f"driving StreamItemQueue with {list(script)} raised {r!r}", repd)
                 continue
@@ -1753,23 +1757,23 @@ def direct_drives(ck, m, thorough):
                 i += 1 if e == 7 else 2
                 if not a:
                     continue
-                row = mo[7 * row_i: 7 * row_i + 7]
-                want = [row[1] if e == 7 else 0] + row[2:]
+                row = mo[W * row_i: W * row_i + W]
+                want = [row[1] if e == 7 else 0] + row[2:7]
                 if o != want:
                     bad = f"after event {e}: observed [ret, aborted, finished, producer, pending, on_abort calls] = {o}, machine says {want}"
                     break
             if bad is None:
-                fin = mo[7 * len(es):]
-                if final != fin[1:]:
-                    bad = f"final state {final}, machine says {fin[1:]}"
+                fin = mo[W * len(es):]
+                if final != fin[1:6]:
+                    bad = f"final state {final}, machine says {fin[1:6]}"
                 elif fin[0] == 1 and not final_quiet:
                     bad = "machine is quiescent, the implementation still has a pending producer / cleanup task"
             if bad:
                 repd["impl"] = {"observations": obs, "final": final}
                 if final[-1] > 1:
                     key = K_TWICE      # the abort callback (source close) ran more than once
-                ck.violation(key, f"StreamItemQueue(eager={eg}, on_abort={hc}, async={ca}) script {list(script)}: {bad}",
-                             repd)
+                ck.violation(key, f"StreamItemQueue(eager={eg}, on_abort={hc}, async={ca}, capacity={cap}) "
+                             f"script {list(script)}: {bad}", repd)
         ck.count("stream_queue_direct_cases", len(cases))
 
     # -- map_async_iterable / aclosing
